@@ -1,4 +1,329 @@
+// C16 — the neighbor cache: lookup/expiry (60 s), discovery rate limit (1 s), eviction of the oldest entry.
+// Spliced into src/iface/neighbor.rs: private fields of `Cache` / `Neighbor` reachable.
+//
+// Pre-state (API prefix, DESIGN.md 1.6): a `Cache::new()` taken through <= 3 `fill_with_expiration` calls with
+// pairwise distinct symbolic unicast keys, symbolic unicast hardware addresses and symbolic expiries, then one
+// `limit_rate`.  Keys, values and slot order being symbolic, this reaches every state of the 3-slot LinearMap
+// (a LinearMap holds distinct keys; `fill` debug-asserts unicast keys / values).  Stated invariant INV_nc, asserted
+// `inv:` on post-states:  every `expires_at <= now + 60 s`,  `silent_until <= now + 1 s`,  len <= 3, keys unicast.
+// The ghost `Model` is the list of filled entries; obligations are written against it.
 #[allow(dead_code, unused_imports, unused_variables, unused_mut)]
 mod v_neighbor_cache {
     use super::*;
+    use crate::verif_common::*;
+    use crate::wire::EthernetAddress;
+    #[cfg(feature = "proto-ipv4")]
+    use crate::wire::Ipv4Address;
+    #[cfg(feature = "proto-ipv6")]
+    use crate::wire::Ipv6Address;
+
+    // the ghost model below has three slots: KI4 / KI6 build the crate with IFACE_NEIGHBOR_CACHE_COUNT=3
+    const _: () = assert!(IFACE_NEIGHBOR_CACHE_COUNT == 3);
+
+    const T_MAX: i64 = 1i64 << 50; // microseconds (about 35 years)
+
+    #[cfg(feature = "proto-ipv4")]
+    fn any_v4() -> IpAddress {
+        let o: [u8; 4] = kani::any();
+        IpAddress::Ipv4(Ipv4Address::from(o))
+    }
+    #[cfg(feature = "proto-ipv6")]
+    fn any_v6() -> IpAddress {
+        let o: [u8; 16] = kani::any();
+        IpAddress::Ipv6(Ipv6Address::from(o))
+    }
+    /// any unicast protocol address of an enabled IP version
+    fn any_ip() -> IpAddress {
+        #[cfg(all(feature = "proto-ipv4", feature = "proto-ipv6"))]
+        let a = if kani::any() { any_v4() } else { any_v6() };
+        #[cfg(all(feature = "proto-ipv4", not(feature = "proto-ipv6")))]
+        let a = any_v4();
+        #[cfg(all(not(feature = "proto-ipv4"), feature = "proto-ipv6"))]
+        let a = any_v6();
+        kani::assume(a.is_unicast());
+        a
+    }
+    fn any_hw() -> HardwareAddress {
+        let o: [u8; 6] = kani::any();
+        kani::assume(o[0] & 1 == 0); // unicast (hence not broadcast)
+        HardwareAddress::Ethernet(EthernetAddress(o))
+    }
+    /// an instant in [lo, hi] with microsecond resolution
+    fn any_instant(lo: i64, hi: i64) -> Instant {
+        let t: i64 = kani::any();
+        kani::assume(t >= lo && t <= hi);
+        Instant::from_micros(t)
+    }
+
+    #[derive(Clone, Copy)]
+    struct E {
+        valid: bool,
+        ip: IpAddress,
+        hw: HardwareAddress,
+        exp: Instant,
+    }
+    struct Model {
+        e: [E; 3],
+        n: usize,
+        silent: Instant,
+    }
+
+    fn m_lookup(m: &Model, p: &IpAddress, t: Instant) -> Answer {
+        let mut r = None;
+        if m.e[0].valid && m.e[0].ip == *p && t < m.e[0].exp {
+            r = Some(m.e[0].hw);
+        }
+        if m.e[1].valid && m.e[1].ip == *p && t < m.e[1].exp {
+            r = Some(m.e[1].hw);
+        }
+        if m.e[2].valid && m.e[2].ip == *p && t < m.e[2].exp {
+            r = Some(m.e[2].hw);
+        }
+        match r {
+            Some(h) => Answer::Found(h),
+            None if t < m.silent => Answer::RateLimited,
+            None => Answer::NotFound,
+        }
+    }
+    fn m_has_key(m: &Model, p: &IpAddress) -> bool {
+        (m.e[0].valid && m.e[0].ip == *p) || (m.e[1].valid && m.e[1].ip == *p) || (m.e[2].valid && m.e[2].ip == *p)
+    }
+
+    /// arbitrary INV_nc state at time `now`, built through the public API
+    fn any_cache(now: Instant) -> (Cache, Model) {
+        let mut c = Cache::new();
+        let n = any_le(3);
+        let hi = (now + Cache::ENTRY_LIFETIME).total_micros();
+        let e0 = E { valid: n >= 1, ip: any_ip(), hw: any_hw(), exp: any_instant(0, hi) };
+        let e1 = E { valid: n >= 2, ip: any_ip(), hw: any_hw(), exp: any_instant(0, hi) };
+        let e2 = E { valid: n >= 3, ip: any_ip(), hw: any_hw(), exp: any_instant(0, hi) };
+        kani::assume(e0.ip != e1.ip && e0.ip != e2.ip && e1.ip != e2.ip);
+        if e0.valid {
+            c.fill_with_expiration(e0.ip, e0.hw, e0.exp);
+        }
+        if e1.valid {
+            c.fill_with_expiration(e1.ip, e1.hw, e1.exp);
+        }
+        if e2.valid {
+            c.fill_with_expiration(e2.ip, e2.hw, e2.exp);
+        }
+        // silent_until anywhere in [0, now + 1 s]: Cache::new gives 0, limit_rate(t) gives t + 1 s
+        let silent = any_instant(0, (now + Cache::SILENT_TIME).total_micros());
+        if silent.total_micros() != 0 {
+            c.limit_rate(silent - Cache::SILENT_TIME);
+        }
+        (c, Model { e: [e0, e1, e2], n, silent })
+    }
+
+    fn any_now() -> Instant {
+        any_instant(0, T_MAX)
+    }
+
+    /// INV_nc on a post-state
+    fn assert_inv(c: &Cache, now: Instant) {
+        assert!(c.storage.len() <= 3, "inv:nc_len_within_capacity");
+        assert!(c.silent_until <= now + Cache::SILENT_TIME, "inv:nc_silent_until_at_most_1s_ahead");
+        let k = any_lt(3);
+        if let Some((ip, nb)) = c.storage.iter().nth(k) {
+            assert!(nb.expires_at <= now + Cache::ENTRY_LIFETIME, "inv:nc_expiry_at_most_60s_ahead");
+            assert!(ip.is_unicast() && nb.hardware_addr.is_unicast(), "inv:nc_entries_unicast");
+        }
+    }
+
+    /// the entry that model slot `i` describes is still stored, bit for bit
+    fn slot_kept(c: &Cache, e: &E) -> bool {
+        match c.storage.get(&e.ip) {
+            Some(nb) => nb.hardware_addr == e.hw && nb.expires_at == e.exp,
+            None => false,
+        }
+    }
+
+    // ------------------------------------------------------------------ lookup is exactly the model
+    // @harness props=C16 cfg=KI4,KI6 tier=q to=600 mem=6 unwind=5 opts=nomem covers=4 funcs=neighbor::Cache::lookup;neighbor::Cache::fill;neighbor::Cache::fill_with_expiration;neighbor::Cache::limit_rate bounds=cache_of_3_slots_holding_0..=3_entries;_any_unicast_keys_(all_address_bits_symbolic),_any_unicast_Ethernet_addresses,_any_expiries_and_silent_until_(microsecond_resolution);_one_fill_at_any_time_then_one_lookup_of_any_address_at_any_time
+    #[kani::proof]
+    pub(crate) fn nc_fill_lookup() {
+        let now = any_now();
+        let (mut c, m) = any_cache(now);
+        // (1) lookup on the arbitrary state
+        let p = any_ip();
+        let tq = any_instant(0, T_MAX);
+        let got = c.lookup(&p, tq);
+        let want = m_lookup(&m, &p, tq);
+        match got {
+            Answer::Found(h) => {
+                assert!(m_has_key(&m, &p), "prop:c16_found_only_for_a_stored_key");
+                assert!(want == Answer::Found(h), "prop:c16_found_only_while_unexpired_and_with_the_learned_address");
+            }
+            Answer::RateLimited => assert!(want == Answer::RateLimited, "prop:c16_rate_limited_iff_before_silent_until"),
+            Answer::NotFound => assert!(want == Answer::NotFound, "prop:c16_not_found_iff_no_live_entry_and_not_silent"),
+        }
+        assert!(c.lookup(&p, tq).found() == got.found(), "prop:c16_lookup_is_pure");
+        kani::cover!(matches!(got, Answer::Found(_)) && m.n == 3, "found in a full cache");
+        kani::cover!(got == Answer::RateLimited && m_has_key(&m, &p), "expired entry, rate limited");
+        kani::cover!(got == Answer::NotFound && m_has_key(&m, &p), "expired entry, not rate limited");
+
+        // (2) fill(ip, hw, now) then lookup: the new mapping answers, for exactly 60 s
+        let ip = any_ip();
+        let hw = any_hw();
+        let known = m_has_key(&m, &ip);
+        c.fill(ip, hw, now);
+        let t2 = any_instant(0, T_MAX);
+        let a2 = c.lookup(&ip, t2);
+        if t2 < now + Cache::ENTRY_LIFETIME {
+            assert!(a2 == Answer::Found(hw), "prop:c16_filled_entry_answers_with_filled_address");
+        } else {
+            assert!(!a2.found(), "prop:c16_entry_unusable_60s_after_confirmation");
+        }
+        assert!(c.silent_until == m.silent, "prop:c16_fill_keeps_rate_limit");
+        assert!(c.storage.len() == if known || m.n == 3 { m.n } else { m.n + 1 }, "prop:c16_fill_adds_at_most_one_entry");
+        assert_inv(&c, now);
+        kani::cover!(known && a2 == Answer::Found(hw), "fill replaced the address of a known neighbor");
+    }
+
+    // ------------------------------------------------------------------ 60 s lifetime, exact boundary
+    // @harness props=C16 cfg=KI4,KI6 tier=q to=600 mem=6 unwind=5 opts=nomem covers=3 funcs=neighbor::Cache::fill;neighbor::Cache::lookup bounds=cache_of_3_slots_in_any_state;_fill_at_any_instant_t;_probes_at_t+60s-1us,_t+60s_and_any_later_instant
+    #[kani::proof]
+    pub(crate) fn nc_expiry_60s() {
+        let now = any_now();
+        let (mut c, m) = any_cache(now);
+        let ip = any_ip();
+        let hw = any_hw();
+        c.fill(ip, hw, now);
+        // expires_at = t + 60 s exactly
+        let nb = c.storage.get(&ip);
+        assert!(nb.is_some(), "prop:c16_filled_entry_stored");
+        let nb = *nb.unwrap();
+        assert!(nb.expires_at == now + Duration::from_millis(60_000), "prop:c16_expiry_is_fill_time_plus_60s");
+        assert!(nb.hardware_addr == hw, "prop:c16_filled_entry_stored");
+        let last = Instant::from_micros(now.total_micros() + 59_999_999);
+        let first_dead = Instant::from_micros(now.total_micros() + 60_000_000);
+        assert!(c.lookup(&ip, last) == Answer::Found(hw), "prop:c16_entry_usable_until_just_before_60s");
+        assert!(!c.lookup(&ip, first_dead).found(), "prop:c16_entry_unusable_60s_after_confirmation");
+        let later = any_instant(first_dead.total_micros(), T_MAX + 120_000_000);
+        let a = c.lookup(&ip, later);
+        assert!(!a.found(), "prop:c16_entry_unusable_60s_after_confirmation");
+        assert!((a == Answer::RateLimited) == (later < m.silent), "prop:c16_rate_limited_iff_before_silent_until");
+        // an expired entry is not revived by anything but a new fill / matching refresh: looking it up does not change it
+        assert!(c.storage.get(&ip).unwrap().expires_at == nb.expires_at, "prop:c16_lookup_is_pure");
+        kani::cover!(m_has_key(&m, &ip), "refreshed an existing neighbor");
+        kani::cover!(m.n == 3 && !m_has_key(&m, &ip), "filled into a full cache");
+        kani::cover!(a == Answer::RateLimited, "expired and rate limited");
+    }
+
+    // ------------------------------------------------------------------ eviction: the oldest expiry, never another
+    // @harness props=C16 cfg=KI4,KI6 tier=q to=600 mem=6 unwind=5 opts=nomem covers=3 funcs=neighbor::Cache::fill;neighbor::Cache::fill_with_expiration;neighbor::Cache::lookup bounds=cache_of_3_slots_holding_0..=3_entries_with_any_expiries_(ties_included);_one_fill_of_any_unicast_key_(new_or_known)
+    #[kani::proof]
+    pub(crate) fn nc_evicts_oldest() {
+        let now = any_now();
+        let (mut c, m) = any_cache(now);
+        let ip = any_ip();
+        let hw = any_hw();
+        let known = m_has_key(&m, &ip);
+        c.fill(ip, hw, now);
+        // every old entry (other than the refilled key) is kept bit for bit, or was the oldest of a full cache
+        let i = any_lt(3);
+        let e = m.e[i];
+        let mut evicted = false;
+        if e.valid && e.ip != ip {
+            if !slot_kept(&c, &e) {
+                evicted = true;
+                assert!(c.storage.get(&e.ip).is_none(), "prop:c16_fill_never_alters_another_entry");
+                assert!(m.n == 3 && !known, "prop:c16_eviction_only_when_full_and_key_new");
+                assert!(e.exp <= m.e[0].exp && e.exp <= m.e[1].exp && e.exp <= m.e[2].exp, "prop:c16_evicts_entry_with_oldest_expiry");
+            }
+        }
+        // exactly one goes: two different old entries are never both gone
+        let j = any_lt(3);
+        if j != i && e.valid && m.e[j].valid && e.ip != ip && m.e[j].ip != ip {
+            assert!(slot_kept(&c, &e) || slot_kept(&c, &m.e[j]), "prop:c16_eviction_removes_exactly_one_entry");
+        }
+        assert!(c.storage.len() == if known || m.n == 3 { m.n } else { m.n + 1 }, "prop:c16_fill_adds_at_most_one_entry");
+        assert!(c.lookup(&ip, now) == Answer::Found(hw), "prop:c16_filled_entry_answers_with_filled_address");
+        // an address that was no key before and is not the filled one is still unknown
+        let p = any_ip();
+        if !m_has_key(&m, &p) && p != ip {
+            assert!(c.storage.get(&p).is_none(), "prop:c16_found_only_for_a_stored_key");
+        }
+        assert!(c.silent_until == m.silent, "prop:c16_fill_keeps_rate_limit");
+        assert_inv(&c, now);
+        kani::cover!(evicted && i == 1, "middle slot evicted");
+        kani::cover!(evicted && m.e[0].exp == m.e[1].exp && m.e[1].exp == m.e[2].exp, "eviction among equal expiries");
+        kani::cover!(m.n == 3 && known && !evicted, "full cache, known key: nothing evicted");
+    }
+
+    // ------------------------------------------------------------------ discovery rate limit
+    // @harness props=C16 cfg=KI4,KI6 tier=q to=600 mem=6 unwind=5 opts=nomem covers=3 funcs=neighbor::Cache::limit_rate;neighbor::Cache::lookup;neighbor::Cache::flush bounds=cache_of_3_slots_in_any_state;_limit_rate_at_any_instant;_lookup_of_any_address_at_any_instant;_flush
+    #[kani::proof]
+    pub(crate) fn nc_rate_limit() {
+        let now = any_now();
+        let (mut c, mut m) = any_cache(now);
+        c.limit_rate(now);
+        assert!(c.silent_until == now + Duration::from_millis(1_000), "prop:c16_silent_until_is_request_time_plus_1s");
+        m.silent = now + Duration::from_millis(1_000);
+        // entries untouched, answers follow the new silent_until
+        let i = any_lt(3);
+        if m.e[i].valid {
+            assert!(slot_kept(&c, &m.e[i]), "prop:c16_limit_rate_keeps_entries");
+        }
+        assert!(c.storage.len() == m.n, "prop:c16_limit_rate_keeps_entries");
+        let p = any_ip();
+        let tq = any_instant(0, T_MAX);
+        let got = c.lookup(&p, tq);
+        assert!(got == m_lookup(&m, &p, tq), "prop:c16_lookup_matches_model");
+        if !got.found() {
+            assert!((got == Answer::RateLimited) == (tq.total_micros() < now.total_micros() + 1_000_000), "prop:c16_rate_limited_for_exactly_1s_after_request");
+        }
+        assert_inv(&c, now);
+        kani::cover!(got == Answer::RateLimited && tq > now, "rate limited inside the silent second");
+        kani::cover!(got == Answer::NotFound && tq > now, "silent second over");
+        // flush empties the map and nothing else
+        c.flush();
+        assert!(c.storage.is_empty(), "prop:c16_flush_empties");
+        assert!(!c.lookup(&p, tq).found(), "prop:c16_flush_empties");
+        assert!(c.silent_until == m.silent, "prop:c16_flush_keeps_rate_limit");
+        kani::cover!(m.n == 3, "flushed a full cache");
+    }
+
+    // ------------------------------------------------------------------ refresh needs key AND hardware address
+    // @harness props=C16 cfg=KI4,KI6 tier=q to=600 mem=6 unwind=5 opts=nomem covers=3 funcs=neighbor::Cache::reset_expiry_if_existing;neighbor::Cache::lookup bounds=cache_of_3_slots_in_any_state;_refresh_with_any_(address,_hardware_address)_at_any_instant
+    #[kani::proof]
+    pub(crate) fn nc_reset_expiry() {
+        let now = any_now();
+        let (mut c, m) = any_cache(now);
+        let p = any_ip();
+        let h = any_hw();
+        c.reset_expiry_if_existing(p, h, now);
+        let i = any_lt(3);
+        let e = m.e[i];
+        let mut refreshed = false;
+        if e.valid {
+            let nb = c.storage.get(&e.ip);
+            assert!(nb.is_some(), "prop:c16_refresh_never_removes");
+            let nb = *nb.unwrap();
+            assert!(nb.hardware_addr == e.hw, "prop:c16_refresh_never_changes_address");
+            if e.ip == p && e.hw == h {
+                refreshed = true;
+                assert!(nb.expires_at == now + Duration::from_millis(60_000), "prop:c16_traffic_from_neighbor_restarts_60s");
+            } else {
+                assert!(nb.expires_at == e.exp, "prop:c16_refresh_only_on_matching_key_and_hardware_address");
+            }
+        }
+        assert!(c.storage.len() == m.n, "prop:c16_refresh_never_adds");
+        assert!(c.silent_until == m.silent, "prop:c16_refresh_keeps_rate_limit");
+        assert_inv(&c, now);
+        kani::cover!(refreshed && e.exp < now, "expired entry revived by matching traffic");
+        kani::cover!(e.valid && e.ip == p && e.hw != h, "same address, different hardware address: ignored");
+        kani::cover!(!m_has_key(&m, &p) && m.n == 3, "unknown sender, full cache");
+    }
+
+    // @harness props=C16 kind=mustfail cfg=KI4 tier=q to=600 mem=6 unwind=5 opts=nomem
+    #[kani::proof]
+    pub(crate) fn nc_must_fail() {
+        let now = any_now();
+        let (mut c, m) = any_cache(now);
+        let ip = any_ip();
+        let hw = any_hw();
+        c.fill(ip, hw, now);
+        assert!(c.lookup(&ip, now + Cache::ENTRY_LIFETIME) == Answer::Found(hw), "prop:deliberately_false_entry_still_usable_at_60s");
+    }
 }
